@@ -448,8 +448,8 @@ func (e *CoreExtension) filterDate(value interface{}, args ...interface{}) (inte
 					}
 
 					if !parsed {
-						// If nothing worked, fallback to current time
-						dt = time.Now()
+						// Not a date in any format we know: say so rather than print today's date
+						return nil, fmt.Errorf("date: cannot parse %q as a date", v)
 					}
 				}
 			}
@@ -475,8 +475,8 @@ func (e *CoreExtension) filterDate(value interface{}, args ...interface{}) (inte
 				dt = time.Unix(int64(v), 0)
 			}
 		default:
-			// For unknown types, use current time
-			dt = time.Now()
+			// Not a value that stands for a point in time
+			return nil, fmt.Errorf("date: cannot use a value of type %T as a date", value)
 		}
 	}
 
